@@ -18,6 +18,9 @@ import (
 // hasStringMethod: the type (or the type it points to) is a named type with String() string.
 func hasStringMethod(t types.Type) bool {
 	if p, ok := t.(*types.Pointer); ok {
+		if types.IsInterface(p.Elem()) {
+			return false // a pointer to an interface has no methods (Go spec: method sets)
+		}
 		t = p.Elem()
 	}
 	n, ok := t.(*types.Named)
